@@ -162,3 +162,78 @@ contract(A + "__error_check__", returns="tuple[float, float, bool]",
                   ] + [("book-" + str(i), b) for i, b in enumerate(book("k"))] + [
                   ("pure", "heap_unchanged()")],
          properties=["C04"])
+
+# ---- hooks (abstract contracts; every optimizer class has to refine them - EFF / LEN / BND obligations) -----------------------
+# PopOK(self): every agent of the population is a valid agent of this run's task and the size clause of C10 holds.
+N = "self._config.population_size"
+POP_OK = ["all(Space(self._task, a.position) for a in self._population)",
+          "implies(scalar_case(), all(Valid(self._task, a) for a in self._population))",
+          "1 <= len(self._population) <= " + N,
+          "implies(fixed_size(self), len(self._population) == " + N + ")",
+          "self._population is not self._errors and self._population is not self._error_diffs"]
+HOOK_FRAME = [("population-list-is-own", "fresh(self._population) or self._population is old(self._population)"),
+              ("only-the-population-changes", "heap_unchanged('self._population')"),
+              ("other-lists-untouched", "lists_unchanged_except(old(self._population))")]
+HOOK_REQ = VALID_TASK + ["self._config is not None"]
+
+contract(A + "before_initialization", requires=HOOK_REQ, ensures=[("frame", "heap_unchanged()"), ("lists", "lists_unchanged_except()")],
+         verify=False, assumed_reason="abstract hook: refinement by every optimizer class is an EFF obligation (FRAME-*)",
+         cases=OBJ_CASES)
+contract(A + "after_initialization", requires=HOOK_REQ + POP_OK, assigns=["content(self._population)", "self._population", "rng"],
+         ensures=[("pop-" + str(i), c) for i, c in enumerate(POP_OK)] + HOOK_FRAME, cases=OBJ_CASES,
+         verify=False, assumed_reason="abstract hook (FRAME-*, PROV, LEN obligations per class)")
+contract(A + "optimization_step", requires=HOOK_REQ + POP_OK, assigns=["content(self._population)", "self._population", "rng"],
+         ensures=[("pop-" + str(i), c) for i, c in enumerate(POP_OK)] + HOOK_FRAME, cases=OBJ_CASES,
+         verify=False, assumed_reason="abstract hook (FRAME-*, PROV, LEN obligations per class)")
+
+# ---- optimize ---------------------------------------------------------------------------------------------------------------
+WMISMATCH = ("(len(task.objective_weights) if task.objective_weights is not None else 1)"
+             " != (1 if scalar_case() else nobj(task))")
+GEN_OK = ("(all(Space(task, a.position) for a in {g}.agents)"
+          " and implies(scalar_case(), all(Reported(task, a) for a in {g}.agents))"
+          " and 1 <= len({g}.agents) <= " + N +
+          " and implies(fixed_size(self), len({g}.agents) == " + N + ")"
+          " and {g}.agents is not self._errors and {g}.agents is not self._error_diffs)")
+CC = "self._current_cycle"
+
+contract(A + "optimize", params=dict(task="Task", mode="opt[str]", workers="opt[int]"), returns="OptimizationResult",
+         cases=OBJ_CASES, locals=dict(evolution="list[Population]"),
+         requires=[
+             "(task.objective_weights is None) == scalar_case()",                       # ValidTask (see _init_agent)
+             "implies(task.seed is not None, 0 <= task.seed < 4294967296)",             # the documented numpy seed range
+             "implies(self._config is not None, " + N + " >= 1 and self._config.max_cycles >= 1 and "
+             + VALID_CFG[1][:-1] + "))",
+             "self._workers >= 1",
+         ],
+         raises={"ValueError": "self._config is None or (workers is not None and workers <= 0) or"
+                               " (mode is not None and mode not in ModeSolver) or " + WMISMATCH},
+         loop_assigns={"loop1": ["content(self._population)", "self._population", "self._best_agent", "self._worst_agent",
+                                 "self._current_cycle", "content(self._errors)", "content(self._error_diffs)"]},
+         invariants={"loop1": [
+             ("config-task-kept", "self._config is old(self._config) and self._task is task and self._workers >= 1"),
+             ("cycle-counter", CC + " >= 1 and len(evolution) == " + CC),
+         ] + [("book-" + str(i), b) for i, b in enumerate(book("(" + CC + " - 1)"))] + [
+             ("no-earlier-stop", "all(not " + STOP.format(k="k", r="self._errors") + " for k in range(1, " + CC + "))"),
+             ("rates-are-abs-1-minus-mean-fitness",
+              "all(self._errors[k - 1] == abs(1 - mean([a.fitness for a in evolution[k].agents])) for k in range(1, " + CC + "))"),
+             ("history-ok", "all(" + GEN_OK.format(g="evolution[g]") + " for g in range(" + CC + "))"),
+             ("evolution-is-local", "evolution is not self._errors and evolution is not self._error_diffs"),
+         ] + [("pop-" + str(i), c) for i, c in enumerate(POP_OK)]},
+         decreases={"loop1": "self._config.max_cycles - " + CC},
+         ghost_out={"best_index": "lambda z: sigma(self._population, None, 0)"},
+         ensures=[
+             ("one-generation-and-rate-per-cycle", "len(result.evolution) == len(result.rates) + 1 and"
+                                                   " 1 <= len(result.rates) <= self._config.max_cycles"),
+             ("stops-when-a-criterion-holds", STOP.format(k="len(result.rates)", r="result.rates")),
+             ("never-earlier", "all(not " + STOP.format(k="k", r="result.rates") + " for k in range(1, len(result.rates)))"),
+             ("rates", "all(result.rates[k - 1] == abs(1 - mean([a.fitness for a in result.evolution[k].agents]))"
+                       " for k in range(1, len(result.rates) + 1))"),
+             ("every-generation-ok", "all(" + GEN_OK.format(g="result.evolution[g]") + " for g in range(len(result.evolution)))"),
+             ("best-is-a-member-of-the-last-generation",
+              "result.best_solution is not None and 0 <= best_index(0) < len(result.evolution[len(result.rates)].agents) and"
+              " result.best_solution.position is result.evolution[len(result.rates)].agents[best_index(0)].position and"
+              " result.best_solution.cost == result.evolution[len(result.rates)].agents[best_index(0)].cost"),
+             ("best-is-optimal-in-the-task-direction",
+              "all(not better(task.minmax, a.cost, result.best_solution.cost) for a in result.evolution[len(result.rates)].agents)"),
+         ],
+         properties=["C01", "C02", "C03", "C04", "C06", "C07", "C08", "C10", "C15", "C18"])
